@@ -22,6 +22,8 @@ def Expr.diff (x : Name) : Expr → Expr
     | "sinh" => .mul (.app "cosh" a) da
     | "cosh" => .mul (.app "sinh" a) da
     | "atan" => .div da (.add (.num 1) (.pow a 2))
+    | "asin" => .div da (.app "sqrt" (.add (.num 1) (.neg (.pow a 2))))
+    | "acos" => .neg (.div da (.app "sqrt" (.add (.num 1) (.neg (.pow a 2)))))
     | _ => .mul (.app ("D:" ++ f) a) da      -- unsupported: evaluation fails, the case is numeric-only
 
 /-- row-major flattened Jacobian of `outs` with respect to `wrt` (what `Matrix.jacobian` iterated yields) -/
